@@ -99,26 +99,32 @@ Qed.
 
 (* the slot vector after the insertion step of config_service *)
 Definition ensure (ss : list (option svc)) (name : str) : list (option svc) :=
-  if find_name ss name then ss else if has_empty ss then fill_empty ss (newsvc name) else ss ++ [Some (newsvc name)].
+  if find_name ss name then ss
+  else if (free_index ss <? max_slots)%nat then (if has_empty ss then fill_empty ss (newsvc name) else ss ++ [Some (newsvc name)])
+  else ss.
 
 Lemma config_service_ensure ss name ty : config_service ss name ty = retype (ensure ss name) name (type_of_name ty).
 Proof. reflexivity. Qed.
 
 Lemma ensure_view ss n : view (ensure ss n) = view ss.
 Proof.
-  unfold ensure. destruct (find_name ss n); [reflexivity|]. destruct (has_empty ss); [apply view_fill|].
+  unfold ensure. destruct (find_name ss n); [reflexivity|]. destruct (free_index ss <? max_slots)%nat; [|reflexivity].
+  destruct (has_empty ss); [apply view_fill|].
   rewrite view_app. cbn [view newsvc s_conf]. apply app_nil_r.
 Qed.
 
-Lemma ensure_find ss n : find_name (ensure ss n) n = true.
+(* D27: the name is there afterwards only if there was room for it (a slot of index < 32) *)
+Lemma ensure_find ss n : (free_index ss < max_slots)%nat -> find_name (ensure ss n) n = true.
 Proof.
-  unfold ensure. destruct (find_name ss n) eqn:E; [exact E|]. destruct (has_empty ss) eqn:E2; [apply find_fill; exact E2|].
+  intros Hcap. apply Nat.ltb_lt in Hcap.
+  unfold ensure. destruct (find_name ss n) eqn:E; [exact E|]. rewrite Hcap. destruct (has_empty ss) eqn:E2; [apply find_fill; exact E2|].
   rewrite find_app. cbn [newsvc s_name]. rewrite (proj2 (seq_eq_eq n n) eq_refl). apply orb_true_r.
 Qed.
 
 Lemma ensure_In ss n s : In (Some s) (ensure ss n) -> In (Some s) ss \/ s = newsvc n.
 Proof.
-  unfold ensure. destruct (find_name ss n); [tauto|]. destruct (has_empty ss); [apply In_fill|].
+  unfold ensure. destruct (find_name ss n); [tauto|]. destruct (free_index ss <? max_slots)%nat; [|tauto].
+  destruct (has_empty ss); [apply In_fill|].
   intros H. apply in_app_or in H as [H|[H|[]]]; [tauto|right; inversion H; reflexivity].
 Qed.
 
@@ -151,18 +157,55 @@ Qed.
 
 (* one configuration entry whose name does not occur among the configured services yet *)
 Lemma config_service_view ss n ty :
+  (free_index ss < max_slots)%nat ->
   ~ In n (map fst (view ss)) ->
   Permutation (view (config_service ss n ty)) (view ss ++ spec [(n, ty)]).
 Proof.
-  intros Hn. rewrite config_service_ensure.
+  intros Hcap Hn. rewrite config_service_ensure.
   assert (forall s, In (Some s) (ensure ss n) -> s_name s = n -> s_conf s = false) as Hu.
   { intros s Hs Hname. destruct (ensure_In _ _ _ Hs) as [H|H]; [|subst s; reflexivity].
     destruct (s_conf s) eqn:E; [|reflexivity]. exfalso. apply Hn.
     pose proof (in_map fst _ _ (view_In s ss H E)) as Hin. cbn [fst] in Hin. rewrite <- Hname. exact Hin. }
   cbn [spec]. destruct (type_of_name ty) as [t|].
-  - eapply Permutation_trans; [apply retype_view_some; [exact Hu|apply ensure_find]|].
+  - eapply Permutation_trans; [apply retype_view_some; [exact Hu|apply ensure_find; exact Hcap]|].
     rewrite ensure_view. apply Permutation_cons_append.
   - rewrite retype_view_none by exact Hu. rewrite ensure_view, app_nil_r. apply Permutation_refl.
+Qed.
+
+(* ---------- capacity (D27): at most max_slots = 32 slots ---------- *)
+Lemma free_index_le ss : (free_index ss <= List.length ss)%nat.
+Proof. induction ss as [|[x|] r IH]; cbn [free_index List.length]; lia. Qed.
+
+Lemma free_index_full ss : has_empty ss = false -> free_index ss = List.length ss.
+Proof. induction ss as [|[x|] r IH]; cbn [has_empty free_index List.length]; intros H; [reflexivity| |discriminate]. rewrite (IH H). reflexivity. Qed.
+
+Lemma free_index_hole ss : has_empty ss = true -> (free_index ss < List.length ss)%nat.
+Proof. induction ss as [|[x|] r IH]; cbn [has_empty free_index List.length]; intros H; [discriminate| |lia]. specialize (IH H). lia. Qed.
+
+Lemma fill_empty_length ss x : List.length (fill_empty ss x) = List.length ss.
+Proof. induction ss as [|[y|] r IH]; cbn [fill_empty List.length]; [reflexivity| |reflexivity]. rewrite IH. reflexivity. Qed.
+
+Lemma retype_length ss n ty : List.length (retype ss n ty) = List.length ss.
+Proof.
+  induction ss as [|[y|] r IH]; cbn [retype List.length]; [reflexivity| |rewrite IH; reflexivity].
+  destruct (seq_eq (s_name y) n); cbn [List.length]; [reflexivity|rewrite IH; reflexivity].
+Qed.
+
+Lemma ensure_length_le ss n : (List.length (ensure ss n) <= S (List.length ss))%nat.
+Proof.
+  unfold ensure. destruct (find_name ss n); [lia|]. destruct (free_index ss <? max_slots)%nat; [|lia].
+  destruct (has_empty ss); [rewrite fill_empty_length; lia|]. rewrite app_length. cbn [List.length]. lia.
+Qed.
+
+(* one entry takes at most one new slot, and never shrinks the vector *)
+Lemma config_service_length_le ss n ty : (List.length (config_service ss n ty) <= S (List.length ss))%nat.
+Proof. rewrite config_service_ensure, retype_length. apply ensure_length_le. Qed.
+
+Lemma config_service_length_ge ss n ty : (List.length ss <= List.length (config_service ss n ty))%nat.
+Proof.
+  rewrite config_service_ensure, retype_length. unfold ensure. destruct (find_name ss n); [lia|].
+  destruct (free_index ss <? max_slots)%nat; [|lia].
+  destruct (has_empty ss); [rewrite fill_empty_length; lia|]. rewrite app_length. lia.
 Qed.
 
 Lemma NoDup_app_l {A} (a b : list A) : NoDup (a ++ b) -> NoDup a.
@@ -172,34 +215,40 @@ Definition cfg_fold (entries : list (str * str)) (ss : list (option svc)) : list
   fold_left (fun acc e => config_service acc (fst e) (snd e)) entries ss.
 
 Lemma cfg_fold_view : forall entries done ss,
+  (List.length ss + List.length entries <= max_slots)%nat ->
   NoDup (map fst (done ++ entries)) -> Permutation (view ss) (spec done) ->
   Permutation (view (cfg_fold entries ss)) (spec (done ++ entries)).
 Proof.
-  induction entries as [|[n ty] entries IH]; intros done ss Hnd Hp; cbn [cfg_fold fold_left].
+  induction entries as [|[n ty] entries IH]; intros done ss Hcap Hnd Hp; cbn [cfg_fold fold_left].
   - rewrite app_nil_r. exact Hp.
   - change (fold_left _ entries ?x) with (cfg_fold entries x). cbn [fst snd].
     replace (done ++ (n, ty) :: entries) with ((done ++ [(n, ty)]) ++ entries) in * by (rewrite <- app_assoc; reflexivity).
-    apply IH; [exact Hnd|].
+    cbn [List.length] in Hcap.
+    apply IH; [pose proof (config_service_length_le ss n ty); lia|exact Hnd|].
     rewrite spec_app. eapply Permutation_trans; [apply config_service_view|apply Permutation_app_tail; exact Hp].
+    { pose proof (free_index_le ss). lia. }
     intros Hin. apply in_map_iff in Hin as [[m t] [E Hin]]. cbn [fst] in E. subst m.
     apply (Permutation_in _ Hp) in Hin. apply spec_names in Hin.
     rewrite !map_app in Hnd. apply NoDup_app_l in Hnd. cbn [map fst] in Hnd.
     apply NoDup_remove_2 in Hnd. rewrite app_nil_r in Hnd. contradiction.
 Qed.
 
-(* the services a reload leaves configured are exactly those the file asks for, whatever the old slot vector was *)
+(* the services a reload leaves configured are exactly those the file asks for, whatever the old slot vector was,
+   PROVIDED there is room: every entry may need one more slot and slots of index >= 32 are refused (D27) *)
 Theorem reload_view ss entries :
+  (List.length ss + List.length entries <= max_slots)%nat ->
   NoDup (map fst entries) -> Permutation (view (services_changed ss entries)) (spec entries).
 Proof.
-  intros Hnd. unfold services_changed. rewrite view_unref.
-  apply (cfg_fold_view entries [] (map unconf ss)); [exact Hnd|]. rewrite view_unconf. apply Permutation_refl.
+  intros Hcap Hnd. unfold services_changed. rewrite view_unref.
+  apply (cfg_fold_view entries [] (map unconf ss)); [rewrite map_length; exact Hcap|exact Hnd|]. rewrite view_unconf. apply Permutation_refl.
 Qed.
 
 Theorem reload_equiv_fresh ss entries :
+  (List.length ss + List.length entries <= max_slots)%nat ->
   NoDup (map fst entries) ->
   Permutation (view (services_changed ss entries)) (view (services_changed [] entries)).
 Proof.
-  intros Hnd. eapply Permutation_trans; [apply reload_view; exact Hnd|apply Permutation_sym, reload_view; exact Hnd].
+  intros Hcap Hnd. eapply Permutation_trans; [apply reload_view; assumption|apply Permutation_sym, reload_view; [cbn [List.length]; lia|exact Hnd]].
 Qed.
 
 (* ---------- the freshly started daemon: slot order is file order ---------- *)
@@ -216,11 +265,12 @@ Lemma has_empty_app ss x : has_empty (ss ++ [Some x]) = has_empty ss.
 Proof. induction ss as [|[y|] r IH]; cbn [app has_empty]; auto. Qed.
 
 Lemma fresh_fold : forall entries done ss,
+  (List.length ss + List.length entries <= max_slots)%nat ->
   NoDup (map fst (done ++ entries)) -> has_empty ss = false ->
   (forall s, In (Some s) ss -> In (s_name s) (map fst done)) -> view ss = spec done ->
   view (cfg_fold entries ss) = spec (done ++ entries).
 Proof.
-  induction entries as [|[n ty] entries IH]; intros done ss Hnd He Hn Hv; cbn [cfg_fold fold_left].
+  induction entries as [|[n ty] entries IH]; intros done ss Hcap Hnd He Hn Hv; cbn [cfg_fold fold_left].
   - rewrite app_nil_r. exact Hv.
   - change (fold_left _ entries ?x) with (cfg_fold entries x). cbn [fst snd].
     assert (~ In n (map fst done)) as Hnew.
@@ -228,19 +278,21 @@ Proof.
     assert (find_name ss n = false) as Hf.
     { destruct (find_name ss n) eqn:E; [|reflexivity]. apply find_name_In in E as [s [H1 H2]]. apply Hn in H1. rewrite H2 in H1. contradiction. }
     assert (config_service ss n ty = ss ++ [Some (set_type (newsvc n) (type_of_name ty))]) as Ec.
-    { unfold config_service. rewrite Hf, He. apply retype_app_new. exact Hf. }
+    { cbn [List.length] in Hcap. assert ((free_index ss <? max_slots)%nat = true) as Hc by (apply Nat.ltb_lt; rewrite (free_index_full ss He); lia).
+      unfold config_service. rewrite Hf, Hc, He. apply retype_app_new. exact Hf. }
     rewrite Ec.
     replace (done ++ (n, ty) :: entries) with ((done ++ [(n, ty)]) ++ entries) in * by (rewrite <- app_assoc; reflexivity).
-    apply IH; [exact Hnd|rewrite has_empty_app; exact He| |].
+    apply IH; [rewrite app_length; cbn [List.length] in *; lia|exact Hnd|rewrite has_empty_app; exact He| |].
     + intros s Hs. rewrite map_app. apply in_or_app. apply in_app_or in Hs as [Hs|[Hs|[]]]; [left; apply Hn; exact Hs|].
       right. inversion Hs. cbn [map fst]. left. destruct (type_of_name ty); reflexivity.
     + rewrite view_app, spec_app, Hv. f_equal. cbn [spec view]. destruct (type_of_name ty); reflexivity.
 Qed.
 
-Theorem fresh_view entries : NoDup (map fst entries) -> view (services_changed [] entries) = spec entries.
+Theorem fresh_view entries : (List.length entries <= max_slots)%nat ->
+  NoDup (map fst entries) -> view (services_changed [] entries) = spec entries.
 Proof.
-  intros Hnd. unfold services_changed. rewrite view_unref. cbn [map].
-  apply (fresh_fold entries [] []); [exact Hnd|reflexivity|intros s []|reflexivity].
+  intros Hcap Hnd. unfold services_changed. rewrite view_unref. cbn [map].
+  apply (fresh_fold entries [] []); [exact Hcap|exact Hnd|reflexivity|intros s []|reflexivity].
 Qed.
 
 (* `spec` written as the comprehension [(n, t) | (n, ty) in entries, type_of_name ty = Some t] *)
@@ -255,10 +307,10 @@ Theorem reload_tables c s svs rs t :
   snd (step_ev c s (Reload svs rs t)) = [].
 Proof. cbn. repeat split. Qed.
 
-Corollary reload_like_fresh c s svs rs t : NoDup (map fst svs) ->
+Corollary reload_like_fresh c s svs rs t : (List.length (slots (tb s)) + List.length svs <= max_slots)%nat -> NoDup (map fst svs) ->
   let s' := fst (step_ev c s (Reload svs rs t)) in let s0 := init c svs rs t in
   rules (tb s') = rules (tb s0) /\ Permutation (view (slots (tb s'))) (view (slots (tb s0))) /\ view (slots (tb s0)) = spec svs.
-Proof. intros Hnd. cbn. split; [reflexivity|]. split; [apply reload_equiv_fresh; exact Hnd|apply fresh_view; exact Hnd]. Qed.
+Proof. intros Hcap Hnd. cbn. split; [reflexivity|]. split; [apply reload_equiv_fresh; assumption|apply fresh_view; [lia|exact Hnd]]. Qed.
 
 (* ---------- queries depend on the slot vector only through the configured (slot, name, type) triples ---------- *)
 Fixpoint triples (ss : list (option svc)) (slot : N) : list (N * str * stype) :=
